@@ -63,6 +63,7 @@ type FakeConsul struct {
 
 	parkedH   map[uint64]int // index -> number of health queries parked at it
 	parkedK   map[uint64]int
+	failCat   int // number of catalog answers to fail with HTTP 500 (fault injection)
 	holdCat   int // number of catalog answers to hold
 	heldCat   int // number currently held
 	releaseCh chan struct{}
@@ -168,6 +169,22 @@ func (f *FakeConsul) TouchKV() {
 	f.kidx++
 	f.logLocked(f.stateEvent("Reg"))
 	f.cond.Broadcast()
+}
+
+// FailCatalog makes the next n catalog queries fail with HTTP 500 (logged as CFail events).
+func (f *FakeConsul) FailCatalog(n int) {
+	f.mu.Lock()
+	f.failCat += n
+	f.mu.Unlock()
+}
+
+// PendingCatalogFaults returns how many armed catalog faults have not fired yet and disarms them.
+func (f *FakeConsul) PendingCatalogFaults() int {
+	f.mu.Lock()
+	defer f.mu.Unlock()
+	n := f.failCat
+	f.failCat = 0
+	return n
 }
 
 // HoldCatalog makes the next n catalog answers wait until ReleaseCatalog is called.
@@ -370,6 +387,13 @@ func (f *FakeConsul) serveCatalog(w http.ResponseWriter, r *http.Request, name s
 	if f.closed {
 		f.mu.Unlock()
 		http.Error(w, "closed", http.StatusInternalServerError)
+		return
+	}
+	if f.failCat > 0 {
+		f.failCat--
+		f.logLocked(map[string]any{"ev": "CFail", "svc": name})
+		f.mu.Unlock()
+		http.Error(w, "fake consul: injected catalog failure", http.StatusInternalServerError)
 		return
 	}
 	type cs struct {
